@@ -240,7 +240,7 @@ def c01_run(gens, tags, mech):
 
 
 PROPS = {
-    "C05": fw([("general", 1500, 40000), ("wide", 12, 300), ("alias", 60, 1500), ("longhist", 6, 150), ("exh:2:677:1", 2000, 1400000), ("exh:3:9497:97", 2000, 200000)], ALL_FW_TAGS,
+    "C05": fw([("general", 1500, 40000), ("wide", 12, 300), ("alias", 60, 1500), ("longhist", 6, 150), ("c02frac", 300, 5000), ("exh:2:677:1", 2000, 1400000), ("exh:3:9497:97", 2000, 200000)], ALL_FW_TAGS,
               assumptions=["the correspondence samples histories; the bounded-exhaustive family of the property's quantifier (8 machine sets of 1-3 small machines, full event alphabet "
                            "with known/unknown ids, 4 clock patterns incl. backwards, 6^3 scripted draw words around the dyadic thresholds) is enumerated completely at depth 2 in the thorough "
                            "tier and strided at depth 3; quick tier strides both"]),
